@@ -190,6 +190,30 @@ pub fn cmd_version20(a: &Args) {
 			}
 		}
 	}
+	// (4b) long strings with multi-byte characters at every offset (error paths that quote or slice the input)
+	for k in 0..48usize {
+		for tail in ["\u{e9}\u{e9}\u{e9}\u{e9}\u{e9}\u{e9}\u{e9}\u{e9}\u{e9}\u{e9}", "\u{30d7}\u{30d7}\u{30d7}\u{30d7}\u{30d7}\u{30d7}", "\u{1F600}\u{1F600}\u{1F600}\u{1F600}"] {
+			for dots in [0usize, 1, 2, 3, 4] {
+				let mut s0: String = "a".repeat(k);
+				s0.push_str(tail);
+				for d in 0..dots {
+					let at = (d * 3).min(k);
+					if s0.is_char_boundary(at) {
+						s0.insert(at, '.');
+					}
+				}
+				let want = reference_parse(&s0);
+				sink.count(crate::util::fnv(s0.as_bytes()) ^ 0x4b, false);
+				for (name, r) in [("slippi", guard(|| slippi::Version::from_str(&s0)).kind()), ("peppi", guard(|| ppi::Version::from_str(&s0)).kind())] {
+					if r == "panic" {
+						sink.report(&viol("parse_string", &format!("{},long_non_ascii", name), "panic", format!("parsing {:?} panicked", s0)), &|| json!({"s": s0}));
+					} else if (r == "ok") != want.is_some() && want.is_none() {
+						sink.report(&viol("parse_string", &format!("{},must_reject", name), "mismatch", format!("{:?} accepted", s0)), &|| json!({"s": s0}));
+					}
+				}
+			}
+		}
+	}
 	// (5) structured strings around the grammar's edges: values above 255, leading zeros, signs, blanks
 	let pieces: Vec<String> = {
 		let mut v: Vec<String> = ["", "0", "00", "000", "05", "005", "0005", "+5", "+0", "++5", "-0", "-1", " 5", "5 ", "0x1", "1e1", "\u{0665}", "255", "256", "257", "299", "300", "511", "512", "999", "1000", "65536", "4294967296", "18446744073709551616", "+255", "+256", "2 5"]
@@ -283,7 +307,11 @@ pub fn cmd_version09(a: &Args) {
 		// (at or below the ceiling), or of the ceiling's layout with the version overwritten (above it)
 		let base_ver = if (maj, min) <= (max[0], max[1]) && (maj, min) != (0, 0) { [maj, min, 0] } else if (maj, min) == (0, 0) { [0, 1, 0] } else { [max[0], max[1], 0] };
 		let reg = db.regime_of(base_ver[0], base_ver[1]);
-		let beh = simple_beh(reg, &["single", "none", "ic", "none"], 0, 0);
+		// mostly zero-frame games; every 16th (major, minor) a game with frames, so that a guard which depends on
+		// the frame count is seen too (a writer that gets past the guard on a newer version may then panic on the
+		// columns: that is reported as well)
+		let nframes = if mm % 16 == 5 { 2 } else { 0 };
+		let beh = simple_beh(reg, &["single", "none", "ic", "none"], nframes, 0);
 		let o = GenOpts::new(seed ^ mm as u64, base_ver);
 		let built = gen::build_beh(&db, &beh, &o);
 		let patches: Vec<u8> = if full { (0..=255).collect() } else { vec![0, 1, ((seed as usize + mm) % 254 + 2) as u8, 255] };
@@ -382,6 +410,60 @@ pub fn cmd_rollbacks(a: &Args) {
 				o => sink.report(&viol("rollback_mask", &cls, o.kind(), format!("ids {:?}: {}", ids, o.detail())), &|| json!({"ids": ids, "mode": l.mode})),
 			}
 		});
+	}
+	// the same sequences as the id column of a game READ from a file, complete or cut inside its last frame
+	if let Some(layout) = a.get("layout") {
+		let db = LayoutDb::load(layout);
+		for path in a.req("in").split(',') {
+			crate::for_each_tagged(path, "IDS", threads, 7, usize::MAX, |idx, v| {
+				let l: IdsLine = serde_json::from_value(v).unwrap();
+				if l.ids.is_empty() || l.ids.iter().any(|x| *x > 1 << 30) {
+					return;
+				}
+				let ids: Vec<i32> = l.ids.iter().map(|x| *x as i32).collect();
+				let mut beh = simple_beh("C", &["single", "none", "none", "none"], ids.len(), idx % 2);
+				// renumber the frames
+				let mut fi = 0usize;
+				let mut last = None;
+				for e in beh.hist.iter_mut() {
+					if e.k == "ge" {
+						continue;
+					}
+					if last != Some(e.id) && last.is_some() {
+						fi += 1;
+					}
+					last = Some(e.id);
+					e.id = ids[fi.min(ids.len() - 1)] as i64;
+				}
+				let cut_last = idx % 3 == 0;
+				if cut_last {
+					// drop Game End and the tail of the last frame (keep its Frame Start and Pre)
+					beh.hist.pop();
+					beh.file_end = "none".into();
+					while beh.hist.last().map_or(false, |e| e.k != "pre") {
+						beh.hist.pop();
+					}
+				}
+				let built = gen::build_beh(&db, &beh, &GenOpts::new(seed ^ idx as u64, [3, [0u8, 7, 16][idx % 3], 0]));
+				let g = match real::read_slp(&built.bytes, false, false) {
+					Outcome::Ok(g) => g,
+					_ => return,
+				};
+				let got_ids: Vec<i32> = g.frames.id.values().to_vec();
+				sink.count(crate::util::fnv(&built.bytes), true);
+				for (mode, keep, first) in [("first", Rollbacks::ExceptFirst, true), ("last", Rollbacks::ExceptLast, false)] {
+					let cls = format!("mode:{},parsed_game{}", mode, if cut_last { ",last_frame_unfinished" } else { "" });
+					match guard_plain(|| g.frames.rollbacks(keep)) {
+						Outcome::Ok(m) => {
+							if m != declarative_mask(&got_ids, first) {
+								sink.report(&viol("rollback_mask", &cls, "mismatch", format!("ids {:?}: {:?}", got_ids, m)), &|| json!({"ids": got_ids, "mode": mode}));
+							}
+						}
+						o => sink.report(&viol("rollback_mask", &cls, o.kind(), format!("ids {:?}: {}", got_ids, o.detail())), &|| json!({"ids": got_ids, "mode": mode})),
+					}
+				}
+			});
+		}
 	}
 	// long sequences (beyond the model's bound): the implementation's masks are recorded and checked
 	// against the declarative definition
